@@ -418,6 +418,9 @@ func (self Node) Index(idx int) (v Node) {
 	}
 
 	s, e = it.Next(UseNativeSkipForGet)
+	if it.Err != nil {
+		return errNode(meta.ErrRead, "", it.Err)
+	}
 	v = self.slice(s, e, self.et)
 	return v
 }
@@ -514,6 +517,11 @@ func (self Node) Field(id proto.FieldNumber, rootLayer bool, msgDesc *proto.Mess
 
 	for it.HasNext() {
 		i, wt, s, e, tagPos := it.Next(UseNativeSkipForGet)
+		if it.Err != nil {
+			// the span of a field that failed to read is not valid, even if its number matches
+			v = errNode(meta.ErrRead, "", it.Err)
+			goto ret
+		}
 		if i == fd.Number() {
 			typDesc := fd.Type()
 			if typDesc.IsMap() || typDesc.IsList() {
